@@ -297,8 +297,9 @@ P_Peek(c, s, n, res, got) ==
     /\ hv[<<c, s>>].r
     /\ LET k == <<c, Other(s)>> IN
        /\ bad' = bad \cup ReadFlags(c, k, n, res, got, TRUE)
-       /\ eof' = IF res = "eof" THEN [eof EXCEPT ![k] = TRUE] ELSE eof
-    /\ UNCHANGED <<att, lsn, addr, acc, rd, wclosed, hv, aborted, tainted, quiet, expl>>
+    \* a peek never advances the stream: seeing the end through a peek does not replace the
+    \* end-of-file the reads are owed ("every accepted byte is eventually read, followed by end-of-file")
+    /\ UNCHANGED <<att, lsn, addr, acc, rd, eof, wclosed, hv, aborted, tainted, quiet, expl>>
 
 \* one half of the stream end <<c, s>> is dropped ("r" or "w"); dropping a TcpStream is "r" then "w"
 P_DropHalf(c, s, half) ==
